@@ -258,6 +258,56 @@ func init() {
 					}
 					c.Case(0, true, map[bool]string{true: "accepted", false: "refused"}[ok])
 				}})
+			// bounds written with leading zeros are decimal numbers like any other
+			lz := []struct {
+				text string
+				v    int
+			}{{"08", 8}, {"010", 10}, {"0010", 10}, {"09", 9}, {"00", 0}, {"007", 7}, {"012", 12}, {"0100", 100}}
+			sp = append(sp, h.Space{Name: "leading-zero-declarations", Count: product(len(lz), 4, 3, 3),
+				Describe: func(i uint64) interface{} {
+					d := unrank(i, len(lz), 4, 3, 3)
+					return fmt.Sprintf("bound written %q in form %d, type %s, actual = bound%+d", lz[d[0]].text, d[1], []ref.Kind{ref.L, ref.A, ref.U1}[d[2]], d[3]-1)
+				},
+				Run: func(c *h.Ctx, i uint64) {
+					d := unrank(i, len(lz), 4, 3, 3)
+					b, form, k := lz[d[0]], d[1], []ref.Kind{ref.L, ref.A, ref.U1}[d[2]]
+					actual := b.v + d[3] - 1
+					if actual < 0 {
+						actual = 0
+					}
+					lo, hi := b.v, b.v
+					loT, hiT := b.text, b.text
+					if form == 1 {
+						lo, loT = 1, "01"
+					}
+					text := "S1F1 W\n<" + k.String() + declText(form, loT, hiT) + " " + elemsText(k, actual, 0) + ">\n."
+					ms, errs, _, pan := smlRun(text)
+					c.Ops(1)
+					in := "sml.Parse(" + strconv.Quote(trunc(text, 200)) + ")"
+					ok := within(form, lo, hi, actual)
+					switch {
+					case pan != "":
+						c.Fail("panic", in, pan)
+					case ok && len(errs) > 0:
+						c.Fail("size-within-bounds-refused:leading-zero", in, fmt.Sprint(errs))
+					case !ok && len(errs) == 0:
+						c.Fail("size-outside-bounds-accepted:leading-zero", in, fmt.Sprintf("count %d accepted", actual))
+					}
+					_ = ms
+					// an ASCII variable keeps the decimal value
+					if k == ref.A && form == 0 && d[3] == 1 {
+						vt := "S1F1 W\n<A" + declText(0, b.text, b.text) + " v0>\n."
+						m2, e2, _, _ := smlRun(vt)
+						if len(e2) > 0 || len(m2) != 1 {
+							c.Fail("ascii-variable-declaration-refused", "sml.Parse("+strconv.Quote(vt)+")", fmt.Sprint(e2))
+						} else if an, isA := msgItem(m2[0]).(*ast.ASCIINode); !isA {
+							c.Fail("ascii-variable-lost", vt, "")
+						} else if mn, mx := an.FillInStringLength(); mn != b.v || mx != b.v {
+							c.Fail("bounds-not-kept", "sml.Parse("+strconv.Quote(vt)+")", fmt.Sprintf("FillInStringLength()=(%d,%d) want (%d,%d)", mn, mx, b.v, b.v))
+						}
+					}
+					c.Case(0, true, map[bool]string{true: "accepted", false: "refused"}[ok])
+				}})
 			// huge and overflowing bounds
 			huge := []string{"16777215", "16777216", "4294967296", "9223372036854775807", "9223372036854775808", "100000000000000000000"}
 			sp = append(sp, h.Space{Name: "huge-bounds", Count: product(4, 14, len(huge), 3),
